@@ -21,7 +21,7 @@ and `Model.sort_policies_by_priority`, `sort_policies_by_subject_hierarchy`, `ge
 (`casbin/model/model.py`), *with every way they raise*:
 
 * priority sort (only when the policy definition has a `p_priority` token, index `pi`): the key of a rule is
-  `int(x[pi]) if x[pi].isdigit() else x[pi]` — `IndexError` for a rule without that field (keys are computed for the
+  `int(x[pi])`, the string itself when `int` raises ValueError (repaired F44: negative priorities are ints) — `IndexError` for a rule without that field (keys are computed for the
   whole list before anything is compared); `sorted` then raises `TypeError` as soon as an `int` key meets a `str`
   key, i.e. exactly when the list mixes both kinds (two adjacent elements of a sorted result have been compared with
   each other).  Homogeneous lists are sorted stably: numerically, resp. by code points.
@@ -68,13 +68,13 @@ inductive LErr
 /-! ## `sort_policies_by_priority` -/
 
 /-- a sort key of the priority sort: Python `int` or `str` -/
-inductive PKey | int (n : Nat) | str (s : String)
+inductive PKey | int (n : Int) | str (s : String)
   deriving DecidableEq, Repr, Inhabited
 
 def PKey.isInt : PKey → Bool | .int _ => true | .str _ => false
 def PKey.isStr : PKey → Bool | .int _ => false | .str _ => true
 
-/-- `int(x[pi]) if x[pi].isdigit() else x[pi]` -/
+/-- the repaired key: `int(x[pi])`, the string itself when `int` raises ValueError (negative priorities are ints) -/
 def pkeyOf (pi : Nat) (r : Rule) : Except OErr PKey :=
   match r[pi]? with
   | none => .error .indexError
@@ -93,7 +93,7 @@ def keysOf (pi : Nat) : List Rule → Except OErr (List PKey)
       | .ok ks => .ok (k :: ks)
 
 /-- numeric key of a rule of an all-`int` list -/
-def natKey (pi : Nat) (r : Rule) : Nat := (prioOf pi r).getD 0
+def natKey (pi : Nat) (r : Rule) : Int := (prioOf pi r).getD 0
 /-- string key of a rule of an all-`str` list -/
 def strKey (pi : Nat) (r : Rule) : String := r.getD pi ""
 
